@@ -9,6 +9,7 @@ import ast
 
 from .. import astutil as A
 from ..fa import FA
+from .effects import Assume, call_atom
 
 FSDS = "storage_filesystem._FilesystemDataSource"
 OSERROR_NAMES = {"IOError", "OSError", "EnvironmentError", "Exception", "BaseException"}
@@ -272,18 +273,109 @@ def check_pointer_trust(ck):
             sites = ck.cg.call_sites_of(lambda c, cands: A.call_attr(c) == "get_versioned_key")
             for (gfi, gcall, _) in sites:
                 g = FA(ck, gfi)
-                tests = [n.id for n in g.cfg.nodes if n.kind == "test" and any(A.call_attr(c) == "exists_nonversioned" for c in A.calls_in(n.ast))
-                         and not isinstance(n.ast, ast.UnaryOp)]
-                def edge_ok(s, d, l, tests=tests):
-                    return not (s in tests and l == "T")
-                live = g.cfg.reach([g.cfg.entry], edge_ok=edge_ok)
-                okd = bool(tests) and not (set(g.nodes(gcall)) & live)
+                # decided as: assuming the validity test answers False, the call is unreachable (whatever the
+                # shape of the test: guard clause, nested if, negation, conjunction with other conditions)
+                invalid = Assume(g, call_atom(("exists_nonversioned",), False))
+                tested = any(n.kind == "test" and n.id in g.cfg.reachable_nodes() and invalid.truth(n.ast, n.id) is not None for n in g.cfg.nodes)
+                okd = tested and not invalid.live(gcall)
                 ck.ob(R, g.key(gcall, "validated-before-use"), okd or atomic,
                       "get_versioned_key is reached only after a positive exists_nonversioned test" if okd else
                       "get_versioned_key is called without a dominating validity test of the pointer", g.where(gcall))
         else:
             ck.ob(R, f2.key(call, "consumer"), atomic, "new consumer of pointer content" if atomic else
                   "new consumer of pointer content at %s is neither an opener nor validated" % fi.qual, f2.where(call))
+
+
+def _after_handler(fa, handler):
+    """What the function returns on the paths that run through an exception handler:
+    ([(leaf value expr, node)], [raise statements reachable from the handler before any return])."""
+    A0 = Assume(fa, lambda e: None)
+    vals, raises = [], []
+    for hn in [n.id for n in fa.cfg.nodes if n.kind == "except" and n.ast is handler and n.id in fa.cfg.reachable_nodes()]:
+        IN = A0.flow({hn: A0.handler_seed(hn)})
+        for i in IN:
+            nd = fa.cfg.node(i)
+            if nd.kind == "stmt" and isinstance(nd.ast, ast.Raise):
+                raises.append(nd.ast)
+            if nd.kind == "stmt" and isinstance(nd.ast, ast.Return):
+                if nd.ast.value is None:
+                    vals.append((ast.Constant(None), i))
+                else:
+                    vals += A0.cases(nd.ast.value, i, IN)
+    return vals, raises
+
+
+def _valid_flag_is(fa, e, n, value):
+    """Is the leaf value an ExistingMementoResult(...) whose valid flag is the given constant?"""
+    if not (isinstance(e, ast.Call) and A.call_attr(e) == "ExistingMementoResult"):
+        return False
+    v = A.kwarg(e, "valid_result")
+    if v is None and len(e.args) >= 2:
+        v = e.args[1]
+    if v is None:
+        return False
+    try:
+        return fa.xnorm(v, n) == repr(value)
+    except Exception:  # noqa
+        return A.norm(v) == repr(value)
+
+
+def _handler_appends_none(fa, handler, read_call):
+    """From the handler, every path to the next iteration / the function's end appends None to the result list
+    (directly, or through a variable that holds None on those paths), and none raises or returns early."""
+    A0 = Assume(fa, lambda e: None)
+    loop = fa.enclosing(read_call, (ast.For, ast.While))
+    ok = False
+    for hn in [n.id for n in fa.cfg.nodes if n.kind == "except" and n.ast is handler and n.id in fa.cfg.reachable_nodes()]:
+        heads = set()
+        if loop is not None:
+            heads = set(fa.cfg.nodes_of(loop)) | set(fa.cfg.nodes_of(loop.test) if isinstance(loop, ast.While) else [])
+        IN = A0.flow({hn: A0.handler_seed(hn)}, removed=heads)     # this iteration only
+        appends = []
+        for c in fa.calls("append"):
+            for i in fa.nodes(c):
+                if i in IN and len(c.args) == 1:
+                    leaves = A0.cases(c.args[0], i, IN)
+                    if leaves and all(A.is_none(e) for (e, _) in leaves):
+                        appends.append(i)
+        if not appends:
+            return False
+        # without those appends, neither the loop head (next element), the exit nor a raise is reachable
+        stops = set(appends)
+        r = fa.cfg.reach([hn], removed=stops)
+        ends = {fa.cfg.exit} | heads
+        if r & ends:
+            return False
+        if any(fa.cfg.node(i).kind == "stmt" and isinstance(fa.cfg.node(i).ast, (ast.Raise, ast.Return)) for i in r):
+            return False
+        ok = True
+    return ok
+
+
+def _is_valid_flag(fa, x, node_id, depth=5):
+    """Does expression `x` read the valid flag of process_existing_memento's answer: `<r>.valid_result`, `<r>[1]`,
+    or the second name of `value, valid = <r>` (r depending on that call)?"""
+    CALL = "call:process_existing_memento"
+    try:
+        if isinstance(x, ast.Attribute) and x.attr == "valid_result":
+            return CALL in fa.df.deps(x.value, node_id)
+        if isinstance(x, ast.Subscript) and isinstance(x.slice, ast.Constant) and x.slice.value == 1:
+            return CALL in fa.df.deps(x.value, node_id)
+        if isinstance(x, ast.Name) and isinstance(x.ctx, ast.Load) and depth > 0:
+            ds = fa.df.reaching(node_id, x.id)
+            hit = False
+            for d in ds:
+                if d.kind == "unpack" and isinstance(d.stmt, ast.Assign) and len(d.stmt.targets) == 1 and isinstance(d.stmt.targets[0], (ast.Tuple, ast.List)):
+                    elts = d.stmt.targets[0].elts
+                    if len(elts) == 2 and isinstance(elts[1], ast.Name) and elts[1].id == x.id and CALL in fa.df.deps(d.value, d.node):
+                        hit = True
+                elif d.kind == "assign" and d.value is not None and not isinstance(d.value, ast.Constant):
+                    if any(_is_valid_flag(fa, y, d.node, depth - 1) for y in [d.value]):
+                        hit = True
+            return hit
+    except Exception:  # noqa
+        return False
+    return False
 
 
 def check_recovery(ck):
@@ -312,10 +404,10 @@ def check_recovery(ck):
         hs = [h for t in trys for h in t.handlers if _handler_covers_oserror(h)]
         ok = False
         if hs:
-            rets = [n for n in A.walk_local(hs[0]) if isinstance(n, ast.Return)]
-            ok = bool(rets) and all(isinstance(r.value, ast.Call) and A.kwarg(r.value, "valid_result") is not None
-                                    and A.norm(A.kwarg(r.value, "valid_result")) == "False" for r in rets) \
-                and not any(isinstance(n, ast.Raise) for n in A.walk_local(hs[0]))
+            # whatever the function returns on a path through the handler is "not valid" (early return in the
+            # handler or a result variable returned after the try), and nothing is re-raised
+            vals, raises = _after_handler(pe, hs[0])
+            ok = bool(vals) and not raises and all(_valid_flag_is(pe, e, n, False) for (e, n) in vals)
         ck.ob(R, pe.key(c, "read-error-means-invalid"), ok, "an I/O error while reading means 'not valid' (the caller recomputes)" if ok else
               "an I/O error while reading a memoized result is not turned into valid_result=False", pe.where(c))
     gm = FA(ck, "storage_base.DataSourceMetadataSource.get_mementos")
@@ -325,8 +417,7 @@ def check_recovery(ck):
         hs = [h for t in trys for h in t.handlers if _handler_covers_oserror(h)]
         ok = False
         if hs:
-            asg = [n for n in A.walk_local(hs[0]) if isinstance(n, ast.Assign) and A.is_none(n.value)]
-            ok = bool(asg) and not any(isinstance(n, (ast.Raise, ast.Return)) for n in A.walk_local(hs[0]))
+            ok = _handler_appends_none(gm, hs[0], c)
         ck.ob(R, gm.key(c, "unreadable-means-absent"), ok, "an unreadable memento counts as absent" if ok else
               "an I/O error while reading a memento escapes get_mementos", gm.where(c))
         # json damage (truncated file) is a ValueError: not required by the design table, noted
@@ -341,7 +432,8 @@ def check_recovery(ck):
     for qual in ("runner_local.memento_run_local", "runner_local.LocalRunnerBackend.batch_run"):
         f = FA(ck, qual)
         pcs = f.some(f.calls("process_existing_memento"), "process_existing_memento call")
-        tests = [n for n in f.cfg.nodes if n.kind == "test" and A.norm(n.ast).endswith(".valid_result")]
+        tests = [n for n in f.cfg.nodes if n.kind == "test" and n.id in f.cfg.reachable_nodes()
+                 and any(_is_valid_flag(f, x, n.id) for x in ast.walk(n.ast))]
         ck.ob(R, f.key(None, "valid-flag-tested"), bool(tests), "the valid flag decides between serve and compute" if tests else
               "%s does not branch on valid_result" % qual, f.where())
 
@@ -351,9 +443,52 @@ def check_readers_validate(ck):
     ck.rule(R, "readers validate: exists_nonversioned tests the pointer and the path it contains; presence queries "
                "of the metadata source go through it", 3)
     ex = FA(ck, FSDS + ".exists_nonversioned")
-    t1 = [n for n in ex.cfg.nodes if n.kind == "test" and ("exists" in A.norm(n.ast) or "isfile" in A.norm(n.ast) or "is_file" in A.norm(n.ast))]
     rd = ex.calls("_read_non_versioned_link")
-    ok = bool(t1) and bool(rd)
+    # decided on the answers: (1) no pointer file => every answer is False; (2) pointer present but the path it
+    # contains fails its test => every answer is False — whether the tests are if-statements, guard clauses or
+    # a conditional expression
+    hits = {"ptr": 0, "target": 0}
+    EXISTS = ("exists", "isfile", "is_file", "lexists")
+
+    def subject(e):
+        if not (isinstance(e, ast.Call) and A.call_attr(e) in EXISTS):
+            return None
+        sub = e.args[0] if (A.call_dotted(e) or "").startswith("os.path") and e.args else A.call_recv(e)
+        return _strip_path_wrappers(sub) if sub is not None else None
+
+    def is_ptr(e):
+        sub = subject(e)
+        return isinstance(sub, ast.Call) and A.call_attr(sub) == LINK_PATH
+
+    def is_target(e):
+        sub = subject(e)
+        return sub is not None and any(isinstance(x, ast.Call) and A.call_attr(x) == "_read_non_versioned_link" for x in ast.walk(sub))
+
+    def no_pointer(e):
+        if is_ptr(e):
+            hits["ptr"] += 1
+            return False
+        return None
+
+    def bad_target(e):
+        if is_ptr(e):
+            return True
+        if is_target(e):
+            hits["target"] += 1
+            return False
+        return None
+
+    def always_false(asm):
+        rets = [r for r in ex.returns() if asm.live(r)]
+        res = bool(rets)
+        for r in rets:
+            for i in asm.live(r):
+                for (leaf, n) in (asm.cases(r.value, i) if r.value is not None else [(None, i)]):
+                    if leaf is None or asm.truth(leaf, n) is not False:
+                        res = False
+        return res
+
+    ok = always_false(Assume(ex, no_pointer)) and always_false(Assume(ex, bad_target)) and hits["ptr"] > 0 and hits["target"] > 0 and bool(rd)
     ck.ob(R, ex.key(None, "two-level"), ok, "tests the pointer, then the designated path" if ok else
           "exists_nonversioned no longer checks both the pointer and the path it designates", ex.where())
     ae = FA(ck, FSDS + ".all_exist_nonversioned")
